@@ -62,7 +62,7 @@ func (w *walker) stmt(s ast.Stmt, tail bool) {
 		w.storeInto(x.X, x.Pos(), false)
 	case *ast.SendStmt:
 		w.expr(x.Chan)
-		w.escapingValue(x.Value)
+		w.escapingAlias(x.Value, "a channel")
 		w.tau(x.Pos())
 	case *ast.GoStmt:
 		w.goStmt(x)
@@ -142,6 +142,30 @@ func (w *walker) assign(x *ast.AssignStmt) {
 	}
 	if x.Tok != token.ASSIGN && x.Tok != token.DEFINE { // op=
 		w.expr(x.Lhs[0])
+	}
+	// x.g = <value referring to the content of x.f> / <alias>[k] = <such a value>: from now on the
+	// two content locations denote the same memory: they are merged (for the whole summary)
+	if len(x.Lhs) == len(x.Rhs) {
+		for i, l := range x.Lhs {
+			if tv, ok := info.Types[x.Rhs[i]]; !ok || !isRefType(tv.Type) || len(vals[i].alias) == 0 {
+				continue
+			}
+			var dst []Loc
+			switch lx := unparen(l).(type) {
+			case *ast.SelectorExpr:
+				dst, _ = w.aliasRoot(lx, true)
+			case *ast.IndexExpr:
+				dst, _ = w.aliasRoot(lx.X, true)
+			}
+			for _, d := range dst {
+				for _, a := range vals[i].alias {
+					if w.t.class(d) != w.t.class(a) {
+						w.fatal(x.Pos(), "content of %s (%s) and of %s (%s) become the same memory", d, w.t.class(d), a, w.t.class(a))
+					}
+					w.t.union(d, a)
+				}
+			}
+		}
 	}
 	for i, l := range x.Lhs {
 		if id, ok := unparen(l).(*ast.Ident); ok {
